@@ -136,10 +136,15 @@ func (a *ethAPI) GetLogs(crit logFilter) ([]types.Log, error) {
 	return out, nil
 }
 
-func (a *ethAPI) GetTransactionReceipt(h common.Hash) *types.Receipt {
+// an unknown hash answers JSON null like a real node (a typed nil *types.Receipt would make the rpc
+// package call the value method MarshalJSON through a nil pointer)
+func (a *ethAPI) GetTransactionReceipt(h common.Hash) (any, error) {
 	a.n.mu.Lock()
 	defer a.n.mu.Unlock()
-	return a.n.receipts[h]
+	if r := a.n.receipts[h]; r != nil {
+		return r, nil
+	}
+	return nil, nil
 }
 
 // Logs serves eth_subscribe("logs", filter).
